@@ -28,7 +28,7 @@ func init() {
 		Rule: "one run = 1-3 genesis continuous vesting accounts and 6-20 blocks of split / move / move-by-denoms / delegate messages (amounts biased to 1-3 units, locked-{0,1,2}, locked/k+-1; times biased to k/n of the vesting span); " +
 			"per accepted message exact per-denomination accounting of sender and recipient, every well-formed request within the locked, undelegated amount must be accepted; after every block family sum vs phantom root. " +
 			"non-trivial = at least one split/move accepted; distinct = hash of magnitude class of the original vesting, fraction-of-span classes hit, chain depth, delegation present, outcome",
-		Quick:      Tier{Runs: 900, BudgetSec: 50},
+		Quick:      Tier{Runs: 3000, BudgetSec: 50},
 		Thorough:   Tier{Runs: 60000, BudgetSec: 780},
 		RunSeed:    c07RunSeed,
 		Replay:     c07Replay,
